@@ -1,1 +1,273 @@
-//! (to be filled)
+//! FFI to the vendored PQClean reference implementation (third-source oracle) and to our
+//! deterministic randombytes.
+
+#![allow(dead_code)]
+
+use std::ffi::c_void;
+
+#[repr(C)]
+pub struct ShakeCtx {
+    ctx: *mut u64,
+}
+
+#[repr(C, align(8))]
+pub struct Prng {
+    pub buf: [u8; 512],
+    pub ptr: usize,
+    pub state: [u8; 256],
+    pub typ: i32,
+}
+
+#[repr(C)]
+pub struct SamplerCtx {
+    pub p: Prng,
+    pub sigma_min: u64,
+}
+
+extern "C" {
+    fn vf_randombytes_seed(seed: *const u8, len: usize);
+    fn vf_randombytes_calls() -> u64;
+    fn shake256(output: *mut u8, outlen: usize, input: *const u8, inlen: usize);
+    fn shake256_inc_init(state: *mut ShakeCtx);
+    fn shake256_inc_absorb(state: *mut ShakeCtx, input: *const u8, inlen: usize);
+    fn shake256_inc_finalize(state: *mut ShakeCtx);
+    fn shake256_inc_ctx_release(state: *mut ShakeCtx);
+}
+
+macro_rules! pq_variant {
+    ($m:ident, $logn:expr, $n:expr, $sklen:expr, $pklen:expr, $siglen:expr,
+     $keypair:ident, $signature:ident, $verify:ident, $comp_enc:ident, $comp_dec:ident,
+     $modq_enc:ident, $modq_dec:ident, $trim_enc:ident, $trim_dec:ident, $htp:ident, $sampler:ident, $gauss0:ident) => {
+        pub mod $m {
+            use super::*;
+            extern "C" {
+                fn $keypair(pk: *mut u8, sk: *mut u8) -> i32;
+                fn $signature(sig: *mut u8, siglen: *mut usize, m: *const u8, mlen: usize, sk: *const u8) -> i32;
+                fn $verify(sig: *const u8, siglen: usize, m: *const u8, mlen: usize, pk: *const u8) -> i32;
+                fn $comp_enc(out: *mut c_void, max: usize, x: *const i16, logn: u32) -> usize;
+                fn $comp_dec(x: *mut i16, logn: u32, inp: *const c_void, max: usize) -> usize;
+                fn $modq_enc(out: *mut c_void, max: usize, x: *const u16, logn: u32) -> usize;
+                fn $modq_dec(x: *mut u16, logn: u32, inp: *const c_void, max: usize) -> usize;
+                fn $trim_enc(out: *mut c_void, max: usize, x: *const i8, logn: u32, bits: u32) -> usize;
+                fn $trim_dec(x: *mut i8, logn: u32, bits: u32, inp: *const c_void, max: usize) -> usize;
+                fn $htp(sc: *mut ShakeCtx, x: *mut u16, logn: u32);
+                fn $sampler(ctx: *mut c_void, mu: u64, isigma: u64) -> i32;
+                fn $gauss0(p: *mut Prng) -> i32;
+            }
+            pub const N: usize = $n;
+            pub const LOGN: u32 = $logn;
+            pub const SK_LEN: usize = $sklen;
+            pub const PK_LEN: usize = $pklen;
+            pub const SIG_MAX: usize = $siglen;
+
+            /// deterministic key pair from a harness seed: (pk bytes, sk bytes)
+            pub fn keypair(seed: &[u8]) -> Option<(Vec<u8>, Vec<u8>)> {
+                let mut pk = vec![0u8; PK_LEN];
+                let mut sk = vec![0u8; SK_LEN];
+                let r = unsafe {
+                    vf_randombytes_seed(seed.as_ptr(), seed.len());
+                    $keypair(pk.as_mut_ptr(), sk.as_mut_ptr())
+                };
+                if r == 0 {
+                    Some((pk, sk))
+                } else {
+                    None
+                }
+            }
+
+            /// deterministic signature (PQClean framing: 0x3n || nonce || compressed, variable length)
+            pub fn sign(seed: &[u8], msg: &[u8], sk: &[u8]) -> Option<Vec<u8>> {
+                if sk.len() != SK_LEN {
+                    return None;
+                }
+                let mut sig = vec![0u8; SIG_MAX + 8];
+                let mut siglen: usize = 0;
+                let r = unsafe {
+                    vf_randombytes_seed(seed.as_ptr(), seed.len());
+                    $signature(sig.as_mut_ptr(), &mut siglen, msg.as_ptr(), msg.len(), sk.as_ptr())
+                };
+                if r == 0 {
+                    sig.truncate(siglen);
+                    Some(sig)
+                } else {
+                    None
+                }
+            }
+
+            pub fn verify(sig: &[u8], msg: &[u8], pk: &[u8]) -> bool {
+                if pk.len() != PK_LEN {
+                    return false;
+                }
+                unsafe { $verify(sig.as_ptr(), sig.len(), msg.as_ptr(), msg.len(), pk.as_ptr()) == 0 }
+            }
+
+            /// comp_encode into a buffer of `max` bytes; returns bytes used (None = failure)
+            pub fn comp_encode(x: &[i16], max: usize) -> Option<Vec<u8>> {
+                assert_eq!(x.len(), N);
+                let mut out = vec![0u8; max];
+                let v = unsafe { $comp_enc(out.as_mut_ptr() as *mut c_void, max, x.as_ptr(), LOGN) };
+                if v == 0 {
+                    None
+                } else {
+                    out.truncate(v);
+                    Some(out)
+                }
+            }
+
+            /// comp_decode: Some((vector, bytes consumed)) or None
+            pub fn comp_decode(inp: &[u8]) -> Option<(Vec<i16>, usize)> {
+                let mut x = vec![0i16; N];
+                let v = unsafe { $comp_dec(x.as_mut_ptr(), LOGN, inp.as_ptr() as *const c_void, inp.len()) };
+                if v == 0 {
+                    None
+                } else {
+                    Some((x, v))
+                }
+            }
+
+            pub fn modq_decode(inp: &[u8]) -> Option<Vec<u16>> {
+                let mut x = vec![0u16; N];
+                let v = unsafe { $modq_dec(x.as_mut_ptr(), LOGN, inp.as_ptr() as *const c_void, inp.len()) };
+                if v != inp.len() || v == 0 {
+                    None
+                } else {
+                    Some(x)
+                }
+            }
+
+            pub fn modq_encode(x: &[u16]) -> Option<Vec<u8>> {
+                let mut out = vec![0u8; PK_LEN - 1];
+                let v = unsafe { $modq_enc(out.as_mut_ptr() as *mut c_void, out.len(), x.as_ptr(), LOGN) };
+                if v == 0 {
+                    None
+                } else {
+                    out.truncate(v);
+                    Some(out)
+                }
+            }
+
+            pub fn trim_i8_decode(inp: &[u8], bits: u32) -> Option<(Vec<i8>, usize)> {
+                let mut x = vec![0i8; N];
+                let v = unsafe { $trim_dec(x.as_mut_ptr(), LOGN, bits, inp.as_ptr() as *const c_void, inp.len()) };
+                if v == 0 {
+                    None
+                } else {
+                    Some((x, v))
+                }
+            }
+
+            pub fn trim_i8_encode(x: &[i8], bits: u32) -> Option<Vec<u8>> {
+                let mut out = vec![0u8; N * 8 / 8 + 8];
+                let v = unsafe { $trim_enc(out.as_mut_ptr() as *mut c_void, out.len(), x.as_ptr(), LOGN, bits) };
+                if v == 0 {
+                    None
+                } else {
+                    out.truncate(v);
+                    Some(out)
+                }
+            }
+
+            pub fn hash_to_point(data: &[u8]) -> Vec<u16> {
+                let mut x = vec![0u16; N];
+                unsafe {
+                    let mut sc = ShakeCtx { ctx: std::ptr::null_mut() };
+                    shake256_inc_init(&mut sc);
+                    shake256_inc_absorb(&mut sc, data.as_ptr(), data.len());
+                    shake256_inc_finalize(&mut sc);
+                    $htp(&mut sc, x.as_mut_ptr(), LOGN);
+                    shake256_inc_ctx_release(&mut sc);
+                }
+                x
+            }
+
+            /// Run PQClean's SamplerZ with a PRNG buffer preloaded with `bytes` (at most 512); returns
+            /// (sample, bytes consumed). The caller must supply enough bytes for the call to finish
+            /// (otherwise the PRNG would refill from an uninitialised ChaCha state: reported as None).
+            pub fn sampler(mu: f64, sigma: f64, sigma_min: f64, bytes: &[u8]) -> Option<(i32, usize)> {
+                let mut ctx = SamplerCtx {
+                    p: Prng { buf: [0u8; 512], ptr: 0, state: [0u8; 256], typ: 0 },
+                    sigma_min: sigma_min.to_bits(),
+                };
+                let k = bytes.len().min(512);
+                // mark the unused tail so that running off the supplied bytes is detectable
+                ctx.p.buf[..k].copy_from_slice(&bytes[..k]);
+                let isigma = 1.0 / sigma;
+                let z = unsafe { $sampler(&mut ctx as *mut SamplerCtx as *mut c_void, mu.to_bits(), isigma.to_bits()) };
+                if ctx.p.ptr > k {
+                    None
+                } else {
+                    Some((z, ctx.p.ptr))
+                }
+            }
+
+            pub fn gaussian0(bytes9: &[u8; 9]) -> i32 {
+                let mut p = Prng { buf: [0u8; 512], ptr: 0, state: [0u8; 256], typ: 0 };
+                p.buf[..9].copy_from_slice(bytes9);
+                unsafe { $gauss0(&mut p) }
+            }
+        }
+    };
+}
+
+pq_variant!(
+    f512, 9, 512, 1281, 897, 666,
+    PQCLEAN_FALCON512_CLEAN_crypto_sign_keypair,
+    PQCLEAN_FALCON512_CLEAN_crypto_sign_signature,
+    PQCLEAN_FALCON512_CLEAN_crypto_sign_verify,
+    PQCLEAN_FALCON512_CLEAN_comp_encode,
+    PQCLEAN_FALCON512_CLEAN_comp_decode,
+    PQCLEAN_FALCON512_CLEAN_modq_encode,
+    PQCLEAN_FALCON512_CLEAN_modq_decode,
+    PQCLEAN_FALCON512_CLEAN_trim_i8_encode,
+    PQCLEAN_FALCON512_CLEAN_trim_i8_decode,
+    PQCLEAN_FALCON512_CLEAN_hash_to_point_vartime,
+    PQCLEAN_FALCON512_CLEAN_sampler,
+    PQCLEAN_FALCON512_CLEAN_gaussian0_sampler
+);
+
+pq_variant!(
+    f1024, 10, 1024, 2305, 1793, 1280,
+    PQCLEAN_FALCON1024_CLEAN_crypto_sign_keypair,
+    PQCLEAN_FALCON1024_CLEAN_crypto_sign_signature,
+    PQCLEAN_FALCON1024_CLEAN_crypto_sign_verify,
+    PQCLEAN_FALCON1024_CLEAN_comp_encode,
+    PQCLEAN_FALCON1024_CLEAN_comp_decode,
+    PQCLEAN_FALCON1024_CLEAN_modq_encode,
+    PQCLEAN_FALCON1024_CLEAN_modq_decode,
+    PQCLEAN_FALCON1024_CLEAN_trim_i8_encode,
+    PQCLEAN_FALCON1024_CLEAN_trim_i8_decode,
+    PQCLEAN_FALCON1024_CLEAN_hash_to_point_vartime,
+    PQCLEAN_FALCON1024_CLEAN_sampler,
+    PQCLEAN_FALCON1024_CLEAN_gaussian0_sampler
+);
+
+pub fn shake256_c(msg: &[u8], outlen: usize) -> Vec<u8> {
+    let mut out = vec![0u8; outlen];
+    unsafe { shake256(out.as_mut_ptr(), outlen, msg.as_ptr(), msg.len()) };
+    out
+}
+
+pub fn randombytes_calls() -> u64 {
+    unsafe { vf_randombytes_calls() }
+}
+
+/// Reframing between the two signature framings (property C16):
+/// ours: 0x5n || salt || body zero-padded to the fixed length; PQClean: 0x3n || salt || body (variable)
+pub fn rust_sig_to_pq(sig: &[u8]) -> Vec<u8> {
+    let mut s = sig.to_vec();
+    s[0] = (s[0] & 0x0f) | 0x30;
+    while s.len() > 41 && *s.last().unwrap() == 0 {
+        s.pop();
+    }
+    s
+}
+
+pub fn pq_sig_to_rust(sig: &[u8], total_len: usize) -> Option<Vec<u8>> {
+    if sig.len() > total_len || sig.len() < 41 {
+        return None;
+    }
+    let mut s = sig.to_vec();
+    s[0] = (s[0] & 0x0f) | 0x50;
+    s.resize(total_len, 0);
+    Some(s)
+}
